@@ -60,7 +60,7 @@ ASSUMPTIONS = [
 MIN_DISTINCT = {'quick': 150, 'thorough': 3000}
 CASE_TIMEOUT = 180
 
-N_MODELS = {'quick': 420, 'thorough': 12000}
+N_MODELS = {'quick': 360, 'thorough': 9000}
 EST_EVERY = 3  # one case out of EST_EVERY estimates O, S and R
 
 DUP_KINDS = ['free-fixed', 'free-var', 'fixed-var', 'free-unusedcol', 'free-draws', 'fixed-draws', 'free-rv',
@@ -192,7 +192,7 @@ def _install_optimizer_spy():
     _spy_installed = True
 
 
-def _params(tol=None, algo=None):
+def _params(tol=None, algo=None, boot=0):
     from biogeme.parameters import Parameters
 
     p = Parameters()
@@ -204,6 +204,8 @@ def _params(tol=None, algo=None):
         p.set_value('tolerance', tol, 'SimpleBounds')
     if algo is not None:
         p.set_value('optimization_algorithm', algo, 'Estimation')
+    if boot:
+        p.set_value('bootstrap_samples', int(boot), 'Estimation')
     return p
 
 
@@ -300,7 +302,7 @@ class Watch:
         self._viol(mech, f'[{self.tag}] {msg}', w)
 
     # -- construction --------------------------------------------------------
-    def construct(self, tol=None, algo=None):
+    def construct(self, tol=None, algo=None, boot=0):
         from ..gen import build
         from biogeme.biogeme import BIOGEME
 
@@ -308,7 +310,7 @@ class Watch:
             self.exprs = _build_formulas(self.model, self.forms, self.share)
             self.db = build.database({'data': self.model['data']})
             arg = self.exprs if (len(self.exprs) > 1 or self.case['i'] % 2) else self.exprs['log_like']
-            self.bg = BIOGEME(self.db, arg, parameters=_params(tol, algo))
+            self.bg = BIOGEME(self.db, arg, parameters=_params(tol, algo, boot))
             self.bg.modelName = f'c03_{self.tag}'
         except BaseException as e:
             self.viol(f'construction-raises-{type(e).__name__}', f'BIOGEME(...) raised {type(e).__name__}: {e}')
@@ -918,7 +920,7 @@ def _biogeme_change_init(w: Watch, r: random.Random):
 # estimation
 
 
-def _estimate(w: Watch, start: dict, tol: float, r: random.Random):
+def _estimate(w: Watch, start: dict, tol: float, r: random.Random, boot: int = 0):
     """returns by-O-name observations of the results object"""
     from ..oracle import c03_ref as ref
 
@@ -931,11 +933,13 @@ def _estimate(w: Watch, start: dict, tol: float, r: random.Random):
     OPT_CALLS.clear()
     np.random.seed(12345)
     try:
-        res = bg.estimate()
+        res = bg.estimate(run_bootstrap=bool(boot))
     except BaseException as e:
         w.viol(f'estimate-raises-{type(e).__name__}', f'{e}')
         return None
     rec.c('estimations_run')
+    if boot:
+        rec.c('estimations_with_bootstrap')
     out = {}
     # what the optimiser was given
     if OPT_CALLS and 'error' not in OPT_CALLS[0]:
@@ -1152,6 +1156,32 @@ def _estimate(w: Watch, start: dict, tol: float, r: random.Random):
                     break
     except BaseException as e:
         w.viol(f'results-subset-accessors-raise-{type(e).__name__}', str(e))
+    # (vii) bootstrap: one column per name
+    if boot:
+        try:
+            bcol = [c for c in table.columns if c.startswith('Bootstrap[') and c.endswith('Std err')]
+            bmat = np.asarray(res.data.bootstrap, dtype=float)
+            rec.ev()
+            rec.c('bootstrap_by_name_checked')
+            if bmat.shape != (boot, len(names)) or len(bcol) != 1:
+                w.viol('bootstrap-results-shape', f'{bmat.shape} columns {bcol}')
+            else:
+                out['Bootstrap Std err'] = {w.back[n]: float(table.loc[n, bcol[0]]) for n in names}
+                out['bootstrap_mean'] = {w.back[n]: float(bmat[:, k].mean()) for k, n in enumerate(names)}
+                sub = list(names)
+                r.shuffle(sub)
+                dr = res.get_betas_for_sensitivity_analysis(sub, use_bootstrap=True)
+                for k, dct in enumerate(dr):
+                    if sorted(dct) != sorted(sub) or any(float(dct[n]) != float(bmat[k, names.index(n)]) for n in sub):
+                        w.viol('bootstrap-draws-attached-to-other-parameters', f'row {k}: {dct} vs {dict(zip(names, bmat[k]))}')
+                        break
+                # the bootstrap standard error of a name is the spread of ITS column
+                sd = {n: float(np.std(bmat[:, k], ddof=1)) for k, n in enumerate(names)}
+                ob = {n: float(table.loc[n, bcol[0]]) for n in names}
+                if not all(close(ob[n], sd[n], 1e-9, 1e-12) for n in names) and _perm_explains(ob, sd, 1e-9, 1e-12):
+                    w.viol('bootstrap-standard-errors-attached-to-other-parameters', f'{ob} vs column spreads {sd}')
+        except BaseException as e:
+            w.viol(f'bootstrap-accessors-raise-{type(e).__name__}', str(e))
     out['est'] = {w.back[n]: v for n, v in est.items()}
     out['ll'] = final_ll
     out['converged'] = converged
@@ -1192,12 +1222,13 @@ def _run_model(case):
         tol = r.choice([None, 1e-7, 1e-9])
     eff_tol = 0.0001220703125 if tol is None else tol
     share = r.random() < 0.5
+    boot = 4 if (est and i % 4 == 0) else 0
     wo = Watch(rec, 'O', model, order_o, share, ident, case, viol)
     ws = Watch(rec, 'S', S, order_s, r.random() < 0.5, ident, case, viol)
     wr = Watch(rec, 'R', R, order_r, r.random() < 0.5, back_r, case, viol)
     ep.reset()
     for w in (wo, ws, wr):
-        if not w.construct(tol=tol):
+        if not w.construct(tol=tol, boot=boot):
             return rec.out()
         w.names_and_bounds()
     # the numbering depends on names only
@@ -1297,9 +1328,9 @@ def _run_model(case):
             except BaseException as e:
                 viol(f'biogeme-change-init-values-raises-{type(e).__name__}', str(e), {'model': model})
     if est:
-        eo = _estimate(wo, start_o, eff_tol, r)
-        es = _estimate(ws, start_s, eff_tol, r)
-        er = _estimate(wr, start_r, eff_tol, r)
+        eo = _estimate(wo, start_o, eff_tol, r, boot)
+        es = _estimate(ws, start_s, eff_tol, r, boot)
+        er = _estimate(wr, start_r, eff_tol, r, boot)
         etol = max(1e-6, 20 * eff_tol)
         if eo is not None:
             sep = min([abs(a - b) for a, b in itertools.combinations(eo['est'].values(), 2)] or [1.0])
@@ -1329,7 +1360,7 @@ def _run_model(case):
                     continue
                 if eo.get('active') != other.get('active'):
                     viol(f'active-bound-flags-move-under-{suffix}', f'{eo.get("active")} vs {other.get("active")}', wit)
-                for col in ('Std err', 'Rob. Std err', 't-test', 'Rob. t-test'):
+                for col in ('Std err', 'Rob. Std err', 't-test', 'Rob. t-test', 'Bootstrap Std err', 'bootstrap_mean'):
                     if col in eo and col in other:
                         rec.ev()
                         bad = [n for n in eo[col] if math.isfinite(eo[col][n]) and abs(eo[col][n]) < 1e100 and not close(
@@ -1599,7 +1630,7 @@ def finalize(cov, tier):
             'fixed_parameters_after_estimation_checked', 'sensitivity_draws_by_name_checked', 'estimates_O_vs_R_compared',
             'estimates_O_vs_S_compared', 'likelihood_O_vs_R', 'likelihood_O_vs_S', 'simulate_O_vs_R', 'duplicates_refused',
             'renaming_order_reversing', 'models_with_one_sided_bounds', 'models_with_several_formulas',
-            'directed_fixed_update_cases', 'estimations_with_well_separated_estimates']
+            'directed_fixed_update_cases', 'estimations_with_well_separated_estimates', 'bootstrap_by_name_checked']
     from ..gen import c03_models as gm
 
     need += ['renaming_' + k for k in gm.RENAMINGS]
